@@ -249,30 +249,74 @@ func opRx(f []string) string {
 	}
 	out = append(out, "rx "+id, "eng="+goja.VerifC20EngineOf(re0))
 
-	// raw find table on its own RegExp object
+	// raw find tables on their own RegExp objects: as goja uses the engines (tbl), backtracking engine alone (tbl2),
+	// linear-time engine alone (tblr; "-" when the pattern has no linear-time twin, "na" where not applicable)
 	sv := goja.VerifC20String(subj)
-	rows := make([]string, 0, len(subj)+1)
-	for st := 0; st <= len(subj); st++ {
-		idx, groups, _ := goja.VerifC20Find(re0, sv, st)
+	fmtRow := func(idx []int, groups []string) string {
 		if len(idx) == 0 {
-			rows = append(rows, "x")
-			continue
+			return "x"
 		}
 		nm := "!"
 		if groups != nil {
 			nm = strings.Join(groups, ",")
 		}
-		rows = append(rows, strings.ReplaceAll(ints(idx), ",", ".")+":"+nm)
+		return strings.ReplaceAll(ints(idx), ",", ".") + ":" + nm
 	}
-	out = append(out, "tbl="+strings.Join(rows, "|"))
+	rows := make([]string, 0, len(subj)+1)
+	rows2 := make([]string, 0, len(subj)+1)
+	rowsr := make([]string, 0, len(subj)+1)
+	hasRE2 := goja.VerifC20HasRE2(re0)
+	for st := 0; st <= len(subj); st++ {
+		idx, groups, _ := goja.VerifC20Find(re0, sv, st)
+		rows = append(rows, fmtRow(idx, groups))
+		idx2, groups2, _ := goja.VerifC20Find2(re0, sv, st)
+		rows2 = append(rows2, fmtRow(idx2, groups2))
+		if hasRE2 {
+			idxr, groupsr, ok := goja.VerifC20FindRE2(re0, sv, st)
+			if ok {
+				rowsr = append(rowsr, fmtRow(idxr, groupsr))
+			} else {
+				rowsr = append(rowsr, "na")
+			}
+		}
+	}
+	out = append(out, "tbl="+strings.Join(rows, "|"), "tbl2="+strings.Join(rows2, "|"))
+	if hasRE2 {
+		out = append(out, "tblr="+strings.Join(rowsr, "|"))
+	} else {
+		out = append(out, "tblr=-")
+	}
 	sticky := strings.Contains(flags, "y")
-	re1, _ := newRegExp(rt0, pat, flags)
-	all, _ := goja.VerifC20FindAll(re1, sv, 0, -1, sticky)
-	ar := make([]string, len(all))
-	for i, a := range all {
-		ar[i] = strings.ReplaceAll(ints(a), ",", ".")
+	global := strings.Contains(flags, "g")
+	fmtAll := func(start, limit int, st bool) string {
+		re1, _ := newRegExp(rt0, pat, flags)
+		all, _ := goja.VerifC20FindAll(re1, sv, start, limit, st)
+		ar := make([]string, len(all))
+		for i, a := range all {
+			ar[i] = strings.ReplaceAll(ints(a), ",", ".")
+		}
+		if len(ar) == 0 {
+			return "-"
+		}
+		return strings.Join(ar, "|")
 	}
-	out = append(out, "all="+strings.Join(ar, "|"))
+	// the raw findAll results the fast paths post-process: Symbol.match (global), Symbol.split, Symbol.replace per start
+	out = append(out, "allm="+fmtAll(0, -1, sticky), "alls="+fmtAll(0, -1, false))
+	var ar []string
+	for _, k := range starts {
+		idx, find := 0, 1
+		if global {
+			find = -1
+		} else if sticky {
+			idx = k
+		}
+		if idx > len(subj) {
+			ar = append(ar, fmt.Sprintf("%d:beyond", k))
+			continue
+		}
+		ar = append(ar, fmt.Sprintf("%d:%s", k, fmtAll(idx, find, sticky)))
+	}
+	out = append(out, "allr="+strings.Join(ar, ";"))
 	out = append(out, "eng2="+goja.VerifC20EngineOf(re0))
 
 	std := ""
@@ -281,8 +325,15 @@ func opRx(f []string) string {
 			continue
 		}
 		rt := m.rt
+		// one compilation per mode; every operation of the dump gets its own RegExp object cloned from it
+		// (`new RegExp(master)`: same compiled pattern, fresh lastIndex / own properties)
+		master, err := newRegExp(rt, pat, flags)
+		if err != nil {
+			panic(err)
+		}
+		ctor := rt.Get("RegExp").(*goja.Object)
 		mk := func(goja.FunctionCall) goja.Value {
-			re, err := newRegExp(rt, pat, flags)
+			re, err := rt.New(ctor, master)
 			if err != nil {
 				panic(err)
 			}
